@@ -3,12 +3,11 @@
    what the implementation returned. *)
 From mathcomp Require Import all_ssreflect all_algebra ssrZ.
 From Coq Require Import ZArith.
-From NSpa Require Import Model.Vec Model.Hrr Model.Vtb Tie.Close.
+From NSpa Require Import Model.Vec Model.Hrr Model.Vtb Model.Power Model.Algebra Tie.Close.
 Set Implicit Arguments.
 Unset Strict Implicit.
 Unset Printing Implicit Defensive.
 
-Inductive alg := AHrr | AVtb | ATvtb.
 
 (* what the implementation did: a value (with "a DeprecationWarning was
    issued" flag) or an exception class *)
@@ -20,41 +19,6 @@ Definition zmat := seq (seq Z).
 
 Definition Zn (n : nat) : Z := Z.of_nat n.
 
-Definition plain {T} (x : T) : scaled T := Scaled x 1 1.
-
-Definition alg_valid (al : alg) (d : nat) : bool :=
-  match al with AHrr => hrr_valid d | _ => vtb_valid d end.
-
-Definition alg_bind (al : alg) (a b : zvec) : result (scaled zvec) :=
-  match al with
-  | AHrr => rmap plain (hrr_bind a b)
-  | AVtb => vtb_bind a b
-  | ATvtb => tvtb_bind a b
-  end.
-
-Definition alg_bmat (al : alg) (v : zvec) (swap : bool) : result (scaled zmat) :=
-  match al with
-  | AHrr => Ok (plain (hrr_bmat v swap))
-  | AVtb => vtb_bmat v swap
-  | ATvtb => tvtb_bmat v swap
-  end.
-
-Definition unwarn {T} (w : result (warned T)) : result T := rmap (@wval T) w.
-Definition nowarn {T} (x : T) : warned T := Warned x false.
-
-Definition alg_invert (al : alg) (v : zvec) (sd : side) : result (warned zvec) :=
-  match al with
-  | AHrr => Ok (nowarn (hrr_invert v))
-  | AVtb => vtb_invert v sd
-  | ATvtb => tvtb_invert v sd
-  end.
-
-Definition alg_imat (al : alg) (d : nat) (sd : side) : result (warned zmat) :=
-  match al with
-  | AHrr => Ok (nowarn (hrr_imat _ d))
-  | AVtb => vtb_imat _ d sd
-  | ATvtb => tvtb_imat _ d sd
-  end.
 
 (* --- generic comparison of a model result with an observation ------------ *)
 Definition cmp_res {M O} (f : M -> O -> bool) (m : result (warned M)) (o : obs O) : bool :=
@@ -92,37 +56,6 @@ Definition check_superpose (a b : zvec) (t : tol) (o : obs (seq dyad)) : bool :=
   cmp_res (cmp_vec t) (Ok (nowarn (vadd a b))) o.
 
 (* ---- special elements (C08) ---------------------------------------------- *)
-Inductive element := EIdentity | ENegIdentity | EZero | EAbsorbing.
-
-Definition hrr_element (el : element) (d : nat) : scaled zvec :=
-  match el with
-  | EIdentity => plain (hrr_identity _ d)
-  | ENegIdentity => plain (hrr_neg_identity _ d)
-  | EZero => plain (hrr_zero _ d)
-  | EAbsorbing => Scaled (hrr_absorbing_core _ d) 1 d
-  end.
-
-Definition alg_element (al : alg) (el : element) (d : nat) (sd : side)
-    : result (warned (scaled zvec)) :=
-  match al, el with
-  | AHrr, _ => Ok (nowarn (hrr_element el d))
-  | AVtb, EIdentity => vtb_identity _ d sd
-  | AVtb, ENegIdentity => vtb_neg_identity _ d sd
-  | AVtb, EZero => vtb_zero _ d sd
-  | AVtb, EAbsorbing => vtb_absorbing _ d sd
-  | ATvtb, EIdentity => tvtb_identity _ d sd
-  | ATvtb, ENegIdentity => tvtb_neg_identity _ d sd
-  | ATvtb, EZero => tvtb_zero _ d sd
-  | ATvtb, EAbsorbing => tvtb_absorbing _ d sd
-  end.
-
-Definition alg_sbind (al : alg) (x y : scaled zvec) : result (scaled zvec) :=
-  match al with
-  | AHrr => rmap (fun c => scale_mul (plain c) x y) (hrr_bind (core x) (core y))
-  | AVtb => vtb_sbind x y
-  | ATvtb => tvtb_sbind x y
-  end.
-
 Definition check_element (al : alg) (el : element) (d : nat) (sd : side) (t : tol)
     (o : obs (seq dyad)) : bool :=
   cmp_res (cmp_svec t) (alg_element al el d sd) o.
@@ -141,11 +74,6 @@ Definition check_sbind3l (al : alg) (w v a : scaled zvec) (t : tol) (o : obs (se
     (rmap (@nowarn _) (rbind (alg_sbind al v a) (fun r => alg_sbind al w r))) o.
 
 Definition sc (c : zvec) (n d : nat) : scaled zvec := Scaled c n d.
-
-Definition alg_sinvert (al : alg) (v : scaled zvec) (sd : side)
-    : result (warned (scaled zvec)) :=
-  rmap (fun w => Warned (Scaled (wval w) (rnum v) (rden v)) (wdep w))
-       (alg_invert al (core v) sd).
 
 (* bind(bind(a, v), invert(v, side)) *)
 Definition check_unbind_r (al : alg) (a v : scaled zvec) (sd : side) (t : tol)
